@@ -636,6 +636,9 @@ ORDER_NUMS = ['1000', '1999', '48', '3', '0.5', '-2', '12', '3888', '255', '16',
 ORDER_TEXTS = ['"abc"', '"Hello World"', '"2020-01-15"', '"a,b"', '"12"', '""', '"x"', '"2021-03-01"', '"FF"', '"MCMXCIX"', '"M"', '"3+4i"']
 
 
+ORDER_ERRS = ['1/0', 'NA()', '"a"+1', 'SQRT(-1)', 'INDEX({1,2},5)', 'nosuch', '{1,2,3}', '{1;2}', '{"a","b"}', 'TRUE', '1=2', 'DATE(2020,1,15)']
+
+
 def order_batches(rng, n_batches):
     """-> cases: every registered (deterministic) function called on one argument list (`first`) and then on another (`probe`)"""
     hotxlfp, _ = _hot()
@@ -644,8 +647,9 @@ def order_batches(rng, n_batches):
     out = []
     for _ in range(n_batches):
         first, probe = [], []
-        text = rng.random() < 0.35
-        pool = ORDER_TEXTS if text else ORDER_NUMS
+        r0 = rng.random()
+        # a batch on numbers, on texts, or (a fifth of them) on error values and arrays - what one function made, handed to another
+        pool = ORDER_TEXTS if r0 < 0.3 else (ORDER_ERRS if r0 < 0.5 else ORDER_NUMS)
         k = rng.choice([1, 1, 2, 2, 3])
         for nm in names:
             a = [rng.choice(pool)] + [rng.choice(ORDER_NUMS + ORDER_TEXTS[:3]) for _ in range(k - 1)]
